@@ -49,12 +49,13 @@ func Compile(s *schema.Node) (*Env, error) {
 
 // Op is one operation of a history.
 type Op struct {
-	Kind    string       `json:"kind"`           // upsert insert update replace delete
-	Into    bool         `json:"into,omitempty"` // store is the source, payload tree the target? no: see Exec
-	At      model.Path   `json:"at"`             // entry point (empty: root)
-	SrcKind string       `json:"src,omitempty"`  // json xml mnode
-	Tree    *model.Tree  `json:"tree,omitempty"` // payload at a root/container/list-entry entry point
-	List    *model.ListT `json:"list,omitempty"` // payload at a list entry point
+	Kind       string       `json:"kind"`                 // upsert insert update replace delete
+	Into       bool         `json:"into,omitempty"`       // store is the source, payload tree the target? no: see Exec
+	At         model.Path   `json:"at"`                   // entry point (empty: root)
+	SrcKind    string       `json:"src,omitempty"`        // json xml mnode
+	Interleave bool         `json:"interleave,omitempty"` // xml: list entries interleaved with their siblings
+	Tree       *model.Tree  `json:"tree,omitempty"`       // payload at a root/container/list-entry entry point
+	List       *model.ListT `json:"list,omitempty"`       // payload at a list entry point
 }
 
 func (o Op) String() string {
@@ -159,6 +160,8 @@ func SourceNode(o Op, replaceParentLevel bool, hook ReaderHook) (node.Node, stri
 		var doc string
 		if l != nil {
 			doc = l.XML()
+		} else if o.Interleave {
+			doc = t.XMLInterleaved("x")
 		} else {
 			doc = t.XML("x")
 		}
